@@ -450,11 +450,11 @@ fn write_crate(dir: &str, bin: bool, source: &str) -> Result<(), String> {
     let target = if bin { "[[bin]]\nname = \"c19run\"\npath = \"src/main.rs\"" } else { "[lib]\npath = \"src/lib.rs\"" };
     std::fs::write(
         format!("{dir}/Cargo.toml"),
-        format!("[package]\nname = \"verif-c19\"\nversion = \"0.0.0\"\nedition = \"2021\"\npublish = false\n\n[workspace]\n\n{target}\n\n[dependencies]\npush = {{ path = \"/repo/packages/push\" }}\npush_macros = {{ path = \"/repo/packages/push-macros\" }}\nordered-float = \"5.0.0\"\n\n[profile.dev]\nopt-level = 0\ndebug = false\n"),
+        format!("[package]\nname = \"verif-c19\"\nversion = \"0.0.0\"\nedition = \"2021\"\npublish = false\n\n[workspace]\n\n{target}\n\n[dependencies]\npush = {{ path = \"{repo}/packages/push\" }}\npush_macros = {{ path = \"{repo}/packages/push-macros\" }}\nordered-float = \"5.0.0\"\n\n[profile.dev]\nopt-level = 0\ndebug = false\n", repo = crate::repo_dir()),
     )
     .map_err(|e| e.to_string())?;
     if !std::path::Path::new(&format!("{dir}/Cargo.lock")).exists() {
-        std::fs::copy("/repo/Cargo.lock", format!("{dir}/Cargo.lock")).map_err(|e| e.to_string())?;
+        std::fs::copy(format!("{}/Cargo.lock", crate::repo_dir()), format!("{dir}/Cargo.lock")).map_err(|e| e.to_string())?;
     }
     std::fs::write(format!("{dir}/src/{}", if bin { "main.rs" } else { "lib.rs" }), source).map_err(|e| e.to_string())
 }
